@@ -438,3 +438,33 @@ def _registry_battery(model, ob):
 
 for _m in ("register", "unregister", "get", "all", "clear", "_register_to_library"):
     REG.replays[f"{MOD}:ComponentRegistry.{_m}"] = _registry_battery
+
+
+# ================================================================================================ @register(name, registry=...)
+# From the property ("a registry's contents equal those of a plain dictionary driven by the same calls"): the decorator is ONE
+# register call - on the registry given (the default registry when none is given: the enclosing function's two lines), with
+# exactly the decorator's name and the decorated class - and it returns the class itself, unchanged.
+def _dec_register(run, args, kwargs, node):
+    from pyvc.types import TInt
+    n = run.ghost.get("register_calls")
+    run.ghost["register_calls"] = Val(TInt, (n.t if n is not None else z3.IntVal(0)) + 1)
+    run.ghost["register_args"] = dict(kwargs, **{f"_pos{k}": a for k, a in enumerate(args)})
+    from pyvc.interp import ExcVal, PyRaise
+    if run.choose(2, None) == 1:
+        raise PyRaise(ExcVal("AlreadyRegistered", [], site="registry.register: the name is taken by another class"))
+    return NONE
+
+
+def _dec_post(c):
+    a = c.ghost["register_args"]
+    ok = set(a) == {"name", "component"}
+    return z3.And(z3.BoolVal(ok), c.ghost["register_calls"].t == 1, *( [c.run.coerce(a["name"], Str).t == c.run.globals["name"].t, a["component"].t == c.old("component").t] if ok else []),
+                  c["result"].t == c.old("component").t)
+
+
+REG.contract(
+    f"{MOD}:register.decorator", prop=P, types={"component": CLS}, result=CLS,
+    globals={"name": Str, "registry": Obj("RegistryHandle")}, calls={"registry.register": _dec_register},
+    modifies=[], raises={"AlreadyRegistered": None},
+    ensures={"one_register_call_with_this_name_and_this_class_and_the_class_returned": _dec_post},
+)
